@@ -16,8 +16,8 @@ type Finding struct {
 	PyValue     string `json:"python_value"`
 	Chain       string `json:"operator_chain,omitempty"`
 	ShrinkEvals int    `json:"shrink_evals"`
+	Minimised   bool   `json:"minimised"`
 	Original    string `json:"original_asp_program,omitempty"`
-	Shrunk      *Prog  `json:"shrunk_ast"`
 }
 
 // A CaseResult is what the batch child reports for one generated program.
@@ -44,6 +44,12 @@ type Engine struct {
 	Asp          *AspEval
 	ShrinkBudget int
 	MaxTargets   int
+	minimised    map[string]int // witnesses minimised so far per class key (this process)
+}
+
+// NewEngine builds an engine around the two evaluators.
+func NewEngine(py *PyServer, a *AspEval) *Engine {
+	return &Engine{Py: py, Asp: a, ShrinkBudget: 1500, MaxTargets: 3, minimised: map[string]int{}}
 }
 
 func (e *Engine) disagrees(q *Prog, route string) (bool, []Diff) {
@@ -148,12 +154,57 @@ func (e *Engine) RunProg(index int, seed int64, p *Prog, feats []string) CaseRes
 	return res
 }
 
+func (e *Engine) agrees(q *Prog, route string) bool {
+	pr, err := e.Py.Eval(Render(q, py, ""), q.Export)
+	if err != nil {
+		panic(err)
+	}
+	if !pr.OK || pr.Risk != "" {
+		return false
+	}
+	av, err := e.Asp.Eval(q, route)
+	if err != nil {
+		return false
+	}
+	d, err := diffVals(av, pr.Vals)
+	return err == nil && len(d) == 0
+}
+
+// neutralisedBy reports whether the named neutraliser (all sites, or one site) makes q agree.
+func (e *Engine) neutralisedBy(q *Prog, route, name string) bool {
+	for _, n := range neutralisers {
+		if n.name != name {
+			continue
+		}
+		k := n.sites(q)
+		if k == 0 {
+			return false
+		}
+		r := q.clone()
+		n.apply(r, -1)
+		if e.agrees(r, route) {
+			return true
+		}
+		if k > 1 && k <= 6 {
+			for i := 0; i < k; i++ {
+				r := q.clone()
+				n.apply(r, i)
+				if e.agrees(r, route) {
+					return true
+				}
+			}
+		}
+	}
+	return false
+}
+
+// shrinkFinding classifies (and, for the first witnesses of a key, minimises) one disagreement.
 func (e *Engine) shrinkFinding(p *Prog, target, route string) *Finding {
 	evalRoute := route
 	if route == "sub-only" {
 		evalRoute = "sub"
 	}
-	test := func(q *Prog) bool {
+	base := func(q *Prog) bool {
 		dis, _ := e.disagrees(q, evalRoute)
 		if dis && route == "sub-only" {
 			// keep the defect specific to the subinclude route
@@ -165,24 +216,53 @@ func (e *Engine) shrinkFinding(p *Prog, target, route string) *Finding {
 	}
 	start := p.clone()
 	start.Export = []string{target}
-	if !test(start) {
+	if !base(start) {
 		return nil // not reproducible in isolation (should not happen: evaluation is deterministic)
 	}
-	small, target, evals := Shrink(start, target, e.ShrinkBudget, test)
-	_, d := e.disagrees(small, evalRoute)
-	if len(d) == 0 {
-		return nil
+	if q := staticSlice(start, target); len(q.Stmts) < len(start.Stmts) && base(q) {
+		start = q
 	}
-	chain := longestChain(small)
-	precOnly := len(chain) >= 2
-	key := KeyOf(small, target, precOnly)
+	suffix := ""
 	if route == "sub-only" {
-		key += "@subinclude"
+		suffix = "@subinclude"
 	}
-	f := &Finding{Key: key, Route: route, Target: target, AspProgram: Render(small, asp, ""), PyProgram: Render(small, py, ""),
-		AspValue: d[0].Asp, PyValue: d[0].Py, ShrinkEvals: evals, Shrunk: small}
-	if precOnly {
-		f.Chain = chainClasses(chain)
+	finish := func(q *Prog, key string, shrunk bool, evals int) *Finding {
+		_, d := e.disagrees(q, evalRoute)
+		if len(d) == 0 {
+			return nil
+		}
+		f := &Finding{Key: key + suffix, Route: route, Target: q.Export[0], AspProgram: Render(q, asp, ""), PyProgram: Render(q, py, ""),
+			AspValue: d[0].Asp, PyValue: d[0].Py, ShrinkEvals: evals, Minimised: shrunk}
+		if ch := longestChain(q); shrunk && len(ch) >= 2 {
+			f.Chain = chainClasses(ch)
+		}
+		return f
 	}
-	return f
+	// 1. Does the disagreement need the languages' own operator precedence?
+	if len(longestChain(start)) >= 2 && e.agrees(parenthesised(start), evalRoute) {
+		small, _, evals := Shrink(start, target, e.ShrinkBudget, func(q *Prog) bool {
+			return len(longestChain(q)) >= 2 && base(q) && e.agrees(parenthesised(q), evalRoute)
+		})
+		return finish(small, "prec/"+chainShape(longestChain(small)), true, evals)
+	}
+	// 2. Differential diagnosis on the (sliced) program.
+	if class := e.classify(start, evalRoute, false); class != "" {
+		if e.minimised[class+suffix] >= 2 {
+			return finish(start, class, false, 0)
+		}
+		e.minimised[class+suffix]++
+		small, _, evals := Shrink(start, target, e.ShrinkBudget, func(q *Prog) bool {
+			return base(q) && e.neutralisedBy(q, evalRoute, class)
+		})
+		return finish(small, class, true, evals)
+	}
+	// 3. Unknown class: minimise, then diagnose the minimal program; fall back to its skeleton.
+	small, target, evals := Shrink(start, target, e.ShrinkBudget, base)
+	if len(longestChain(small)) >= 2 && e.agrees(parenthesised(small), evalRoute) {
+		return finish(small, "prec/"+chainShape(longestChain(small)), true, evals)
+	}
+	if class := e.classify(small, evalRoute, true); class != "" {
+		return finish(small, class, true, evals)
+	}
+	return finish(small, KeyOf(small, target, false), true, evals)
 }
